@@ -170,6 +170,8 @@ func txnSQL(a Action) string {
 		return fmt.Sprintf("INSERT INTO %s VALUES (%d, 1), (%d);", t, k, k+1)
 	case "updatejoin":
 		return fmt.Sprintf("UPDATE tx SET tx.v = ux.v FROM %s tx JOIN %s ux ON tx.id = ux.id;", t, tname(aStr(a, "u")))
+	case "deletejoin":
+		return fmt.Sprintf("DELETE tx FROM %s ux JOIN %s tx ON tx.id = ux.id;", tname(aStr(a, "u")), t)
 	case "addfirst":
 		return fmt.Sprintf("ALTER TABLE %s ADD x DEFAULT id FIRST;", t)
 	case "addfail":
@@ -437,7 +439,7 @@ func txnRandom(r *core.Run, hk int, flavour string) (Action, []Action) {
 			if rng.Intn(2) == 0 {
 				acts = append(acts, txnA2("insertsel", t, u))
 			} else if u != t {
-				acts = append(acts, txnA2("updatejoin", t, u))
+				acts = append(acts, txnA2([]string{"updatejoin", "deletejoin"}[rng.Intn(2)], t, u))
 			}
 		case x < 11:
 			acts = append(acts, txnA([]string{"insertcols", "insertbad2", "addfail"}[rng.Intn(3)], t, key(), 0))
